@@ -191,6 +191,24 @@ def r3_ownership_predicate(ctx):
                'the verdict of a non-module item is overwritten by a computed value: a positive `__module__` / `__objclass__` match no longer decides '
                '(a def of this module wrapped by a functools.wraps decorator from another module is judged foreign)', anchor=q)
     rep.floor('C16.R3', 'sufficient ownership tests', n_true, 2)
+    # a name of a module owns an item only when it EQUALS the target name: a prefix / substring / membership test also accepts the submodules
+    # and namesakes of the target (`pkg` vs `pkg_util`, `pkg` vs `pkg.core`), whose functions the static collector never attributes to it
+    tgt_names = {'target_modname'}
+    for n in g.nodes:
+        if n.kind != 'test' or n.dup or module_branch(n) is not False:
+            continue
+        for x in ast.walk(n.ast):
+            loose = None
+            if isinstance(x, ast.Call) and isinstance(x.func, ast.Attribute) and x.func.attr in ('startswith', 'endswith', 'find', 'count') and x.args and \
+                    any(isinstance(y, ast.Name) and y.id in tgt_names for y in ast.walk(x.args[0])):
+                loose = x
+            if isinstance(x, ast.Compare) and len(x.ops) == 1 and isinstance(x.ops[0], (ast.In, ast.NotIn)) and \
+                    (any(isinstance(y, ast.Name) and y.id in tgt_names for y in ast.walk(x.left)) or is_name(x.comparators[0], 'target_modname')):
+                loose = x
+            if loose is not None:
+                rep.ob('C16.R3', ctx.loc(f, loose), ctx.src(loose), False,
+                       'ownership is decided by a prefix / substring test against the target module name instead of equality: items of a module whose name merely starts with (or contains) '
+                       'the target name -- `pkg_util`, `pkg.core` -- are taken for items of `pkg`, so the dynamic collector yields imported functions the static collector does not', anchor=q)
     # the __module__ test is consulted for every non-module item
     item = f.node.args.args[0].arg
 
@@ -282,6 +300,7 @@ from ..selftest import fire, silent      # noqa: E402
 SA = 'xdoctest/static_analysis.py'
 DY = 'xdoctest/dynamic_analysis.py'
 VARIANTS = [
+    fire('globals-name-compared-by-prefix', 'C16.R3', ('xdoctest/dynamic_analysis.py', "                if item_modname == target_modname:\n", "                if item_modname.startswith(target_modname):\n")),
     fire('dynamic-skips-dunder-names', 'C16.R4', (DY, "    for key, val in module.__dict__.items():\n        if isinstance(val, valid_func_types):\n", "    for key, val in module.__dict__.items():\n        if key.startswith('__'):\n            continue\n        if isinstance(val, valid_func_types):\n")),
     fire('static-skips-except-handlers', 'C16.R5', (SA, "    # -- helpers ---\n", "    def visit_Try(self, node):\n        for child in node.body + node.orelse + node.finalbody:\n            self.visit(child)\n\n    # -- helpers ---\n")),
     fire('module-attr-only-as-fallback', 'C16.R3', (DY, "        if getattr(item, '__module__', None) == target_modname:\n            flag = True\n", "        try:\n            item_modname = item.__globals__['__name__']\n        except AttributeError:\n            item_modname = getattr(item, '__module__', None)\n        if item_modname == target_modname:\n            flag = True\n")),
